@@ -1167,7 +1167,8 @@ func (eval Evaluator) MulThenAdd(op0 *rlwe.Ciphertext, op1 rlwe.Operand, opOut *
 			return fmt.Errorf("cannot MulThenAdd: %w", err)
 		}
 
-		opOut.Resize(op0.Degree(), opOut.Level())
+		// opOut may hold a non-relinearized accumulator of higher degree than op0
+		opOut.Resize(utils.Max(op0.Degree(), opOut.Degree()), opOut.Level())
 
 		ringQ := eval.parameters.RingQ().AtLevel(level)
 
@@ -1207,7 +1208,8 @@ func (eval Evaluator) MulThenAdd(op0 *rlwe.Ciphertext, op1 rlwe.Operand, opOut *
 			return fmt.Errorf("cannot MulThenAdd: %w", err)
 		}
 
-		opOut.Resize(op0.Degree(), opOut.Level())
+		// opOut may hold a non-relinearized accumulator of higher degree than op0
+		opOut.Resize(utils.Max(op0.Degree(), opOut.Degree()), opOut.Level())
 
 		// Instantiates new plaintext from buffer
 		pt, err := rlwe.NewPlaintextAtLevelFromPoly(level, eval.buffQ[0])
